@@ -38,6 +38,37 @@ type builtTx struct {
 	SigChanged     bool
 }
 
+// currentOwnerKey: the pool key whose address the stored access-control list (or the DAO-owner parameter)
+// names for this governance message right now.
+func (ch *chain) currentOwnerKey(v *chainView, tx *hTx) (int, bool) {
+	var owner sdk.Address
+	switch tx.Kind {
+	case "param", "upgrade":
+		var acl govtypes.ACL
+		if bz, ok := v.Raw[sdk.ParamsKey.Name()]["gov/acl"]; !ok || simCdc.UnmarshalJSON(bz, &acl) != nil {
+			return 0, false
+		}
+		key := tx.Key
+		if tx.Kind == "upgrade" {
+			key = "gov/upgrade"
+		}
+		owner = aclOwner(acl, key)
+	case "dao":
+		owner = ch.daoOwner(v)
+	default:
+		return 0, false
+	}
+	if len(owner) == 0 {
+		return 0, false
+	}
+	for i := range ch.pool {
+		if bytes.Equal(ch.pool[i].Addr, owner) {
+			return i, true
+		}
+	}
+	return 0, false
+}
+
 // coinsSame compares two fee coin lists field by field (no library arithmetic involved)
 func coinsSame(a, b sdk.Coins) bool {
 	if len(a) != len(b) {
@@ -166,6 +197,11 @@ func (ch *chain) buildTx(tx *hTx) *builtTx {
 	}
 	v := ch.app.view()
 	from := mod(tx.From, len(ch.pool))
+	if tx.AsOwner {
+		if k, ok := ch.currentOwnerKey(v, tx); ok {
+			from = k
+		}
+	}
 	fromAddr := ch.pool[from].Addr
 	bal := v.coinsOf(fromAddr)
 	bt.SignerBal = bal
